@@ -743,9 +743,9 @@ func TestProp(t *testing.T) {
 		"no escape timeout expires between the chunks of one case (the hook scans synchronously); one expiring scan ends every case",
 		"what a malformed sequence decodes to is unspecified: only partition independence, zero leftover and no panic/stall apply to it",
 		"a scan that does not return within 10 s counts as a stall")
-	pbt.Check(t, "partition", pbt.Pick(40000, 600000), pbt.Spec[Case]{Gen: genCase, Prop: prop, NonTrivial: nonTrivial, Classes: classes})
+	pbt.Check(t, "partition", pbt.Pick(40000, 400000), pbt.Spec[Case]{Gen: genCase, Prop: prop, NonTrivial: nonTrivial, Classes: classes})
 	timerSweep(t)
-	pbt.Check(t, "epochs", pbt.Pick(20000, 300000), pbt.Spec[EpochCase]{Gen: genEpoch, Prop: epochProp,
+	pbt.Check(t, "epochs", pbt.Pick(20000, 150000), pbt.Spec[EpochCase]{Gen: genEpoch, Prop: epochProp,
 		NonTrivial: func(c EpochCase) bool {
 			for _, s := range c.Segs[:len(c.Segs)-1] {
 				if len(s) > 0 && s[len(s)-1] == 0x1b || bytes.HasSuffix(s, []byte("\x1b[")) {
@@ -755,8 +755,8 @@ func TestProp(t *testing.T) {
 			return false
 		}})
 	pbt.Check(t, "stale-timer", pbt.Pick(24, 400), pbt.Spec[StaleCase]{Gen: genStale, Prop: staleProp})
-	pbt.Check(t, "live-reads", pbt.Pick(120, 3000), pbt.Spec[LiveCase]{Gen: genLive, Prop: liveProp,
+	pbt.Check(t, "live-reads", pbt.Pick(120, 2000), pbt.Spec[LiveCase]{Gen: genLive, Prop: liveProp,
 		NonTrivial: func(c LiveCase) bool { return len(c.Tokens) > 25 && len(c.PerRd) > 3 && c.Defer }})
-	pbt.Check(t, "embed", pbt.Pick(15000, 200000), pbt.Spec[EmbedCase]{Gen: genEmbed, Prop: embedProp,
+	pbt.Check(t, "embed", pbt.Pick(15000, 150000), pbt.Spec[EmbedCase]{Gen: genEmbed, Prop: embedProp,
 		NonTrivial: func(c EmbedCase) bool { return len(c.Cuts) > 0 && (c.A != "" || c.B != "") }})
 }
